@@ -6,7 +6,7 @@
    All statements quantify over ALL trees (no depth or size bound). *)
 From Coq Require Import List String ZArith Bool.
 Import ListNotations.
-From BT.Front Require Import Yaml YamlRes Patch PatchProofs Include IncludeProofs Alias AliasProofs Inherit InheritProofs.
+From BT.Front Require Import Yaml YamlRes Patch PatchProofs PatchWf Include IncludeProofs Alias AliasProofs Inherit InheritProofs.
 Open Scope string_scope.
 Open Scope list_scope.
 
@@ -53,6 +53,12 @@ Theorem C12_update_total : forall v3 bl ol,
   exists rl, update v3 (YMap bl) (YMap ol) = Some (YMap rl).
 Proof. exact update_total. Qed.
 Print Assumptions C12_update_total.
+
+(* Patching well-formed trees gives a well-formed tree: patches compose. *)
+Theorem C12_update_wf : forall v3 base overlay r,
+  wf v3 base = true -> wf v3 overlay = true -> update v3 base overlay = Some r -> wf v3 r = true.
+Proof. exact update_wf. Qed.
+Print Assumptions C12_update_wf.
 
 (* The `members` merge is the update of the ordered mappings the two lists denote
    (for all lists of single-entry items, repeated names included). *)
@@ -108,6 +114,17 @@ Theorem C12_include_order : forall fuel v3 fs dirs stack k nl nl1 inc ps r,
        end.
 Proof. exact include_order. Qed.
 Print Assumptions C12_include_order.
+
+(* On well-formed documents (mappings) the composition the implementation computes for an inclusion
+   list (Include.apply_all, the `fl` of C12_include_order) IS the documented one — each document
+   patching, by the documented table, the result of those listed before it — and it never crashes. *)
+Theorem C12_include_composition_is_documented : forall v3 l base,
+  match base with Some b => wfm v3 b = true | None => True end ->
+  Forall (fun f => wfm v3 f = true) l ->
+  exists r, apply_all v3 base l = Ok r /\ spec_all v3 base l = Some r
+            /\ match r with Some y => wfm v3 y = true | None => True end.
+Proof. exact apply_all_spec. Qed.
+Print Assumptions C12_include_composition_is_documented.
 
 (* The file used is the one of the FIRST directory (in the given order) that has it. *)
 Theorem C12_include_search_order : forall fs ds p full t,
